@@ -21,7 +21,10 @@ def base_oracle(scn, res):
         where = msg.split(":")[0].replace("panicked at ", "")
         out.append(({"kind": "panic", "scenario": scn["name"], "where": where, "line": panic_site(msg)},
                     {"lid": lid, "msg": msg}))
+    killed = {e[3] for e in res.get("events", []) if e[1] == "ENV" and e[2] == "kill"}
     for n, rc in res["roots"].items():
+        if n in killed:
+            continue     # killed by the environment player, on purpose
         if rc == 101 and not res["flags"].get("panics"):
             out.append(({"kind": "exit-101", "scenario": scn["name"]}, {"stderr": res["stderr"].get(n, "")[-600:]}))
         if rc is not None and rc < 0 and v == "done":
